@@ -591,6 +591,13 @@ class Emitter:
                 return [mk(v)]
             if isinstance(env[it.id][1], Phi):
                 return build(env[it.id][1])
+        # `for x in (A if c else B)`: one repetition per outcome; an empty literal writes nothing
+        if isinstance(it, ast.IfExp):
+            def side(v):
+                if isinstance(v, (ast.List, ast.Tuple)) and not v.elts:
+                    return []
+                return self.rep_over(target, v, ifs, copy_items(body), sep, node, env, partial)
+            return [Alt(it.test, side(it.body), side(it.orelse), it)]
         # `for x in A + B` writes the rows of A, then those of B (each part gets its own copy of the body: its values are
         # classified in the context of that part)
         parts = concat_parts(it, env)
@@ -980,13 +987,13 @@ def make_block(fmt, fn, prov, b, rep, kind, via, path, conds, flat, before):
             blk.other_guards.append((t, pol))
     blk.conds_row = list(conds)
     blk.lines = tokenize(flat)
-    prov.context[id(rep.node)] = (kind, getattr(rep, 'corner', False))
+    prov.context[id(rep.target)] = (kind, getattr(rep, 'corner', False))
     try:
         _classify_tokens(blk)
         for lf in leaves_of(flat):
             lf.cls = prov.classify(lf.expr, lf.expr)
     finally:
-        prov.context.pop(id(rep.node), None)
+        prov.context.pop(id(rep.target), None)
     lv = leaves_of(flat)
     blk.write = lv[0].node if lv else rep.node
     return blk
